@@ -45,7 +45,7 @@ V6_DELETES = ["V6_api.delete_func.*", "V6_api.fn:Module::delete_func", "V6_api.F
 
 V8_BASE = ["V8_lower.fn:lemma_*", "V8_lower.fn:FunctionModifier as *", "V8_lower.fn:Instrumenter::*", "V8_lower.fn:Inject::inject", "V8_lower.fn:Opcode::*",
            "V8_lower.fn:InstrumentationFlag::*", "V8_lower.fn:Instruction::add_instr", "V8_lower.fn:FuncInstrFlag::add_instr", "V8_lower.fn:v_inject_all"]
-LOWER_GLUE = ["Module::resolve_special_instrumentation: the per-function driver (block stack, which helper runs at which instruction, delete_block / retain_end bookkeeping, resolve_on_end maps) is not under contract, EXCEPT (i) the preparation of entry / exit code before the loop and (ii) ONE ITERATION of the loop (rule R19) for the case `the instruction lies inside a construct that a block-alternate removes`: it is removed, nothing else is planned on it, no entry / exit code is spent, the nesting stack is tracked",
+LOWER_GLUE = ["Module::resolve_special_instrumentation: the per-function driver (block stack, which helper runs at which instruction, delete_block / retain_end bookkeeping, resolve_on_end maps) is not under contract, EXCEPT (i) the preparation of entry / exit code before the loop and (ii) ONE ITERATION of the loop (rule R19) for six cases, each a contract on the same extracted text restricted by its `requires`: inside a removed construct; the opener carrying a block-alternate; the matching `end` of a removed construct; an opener with only a block-entry probe; a block / loop with only a block-exit probe; a single-target branch with only a semantic-after probe (the last four in functions without function-level entry / exit code). All other combinations (several special requests on one instruction, `else`, br_table, pending bodies flushed at else / end, function-level code present) are NOT decided",
               "the save_* helpers use HashMap::entry().and_modify(closure): outside Verus (assumed where a contract of C19 / C20 needs them)",
               "the final emission of before / alternate / after lists in encode_internal",
               "'fires once when ...' is an execution-trace property: neither verifier has a WebAssembly semantics; what is proved is WHERE each helper places WHICH code (placement contracts written from the property text)",
@@ -273,14 +273,14 @@ PROPS = {
     "C18": {
         "title": "Block entry probes fire on every entry into the block",
         "units": ["V8_lower"],
-        "obligations": V8_BASE + ["V8_lower.lower_one_instruction.*", "V8_lower.fn:Module::lower_one_instruction", "V8_lower.fn:InstrumentationFlag::has_instr", "V8_lower.resolve_block_entry.*", "V8_lower.fn:resolve_block_entry"],
+        "obligations": V8_BASE + ["V8_lower.lower_block_entry_opener.*", "V8_lower.fn:Module::lower_block_entry_opener", "V8_lower.lower_one_instruction.*", "V8_lower.fn:Module::lower_one_instruction", "V8_lower.fn:InstrumentationFlag::has_instr", "V8_lower.resolve_block_entry.*", "V8_lower.fn:resolve_block_entry"],
         "glue": LOWER_GLUE, "design_ref": "DESIGN.md §5 C17-C20",
         "level_text": "Placement only: on block / loop / if / else the probe code is appended to the AFTER list of the opening instruction (= first thing inside the body or arm, re-executed on every loop iteration); on any other instruction nothing changes.",
     },
     "C19": {
         "title": "Block exit probes fire when the block or arm falls through",
         "units": ["V8_lower"],
-        "obligations": V8_BASE + ["V8_lower.resolve_bodies.*", "V8_lower.fn:resolve_bodies", "V8_lower.plan_resolution_block_exit.*", "V8_lower.fn:plan_resolution_block_exit"],
+        "obligations": V8_BASE + ["V8_lower.lower_block_exit_opener.*", "V8_lower.fn:Module::lower_block_exit_opener", "V8_lower.resolve_bodies.*", "V8_lower.fn:resolve_bodies", "V8_lower.plan_resolution_block_exit.*", "V8_lower.fn:plan_resolution_block_exit"],
         "glue": LOWER_GLUE + ["ASSUMED: the contracts of save_not_flagged_body_to_resolve{,_inner} (HashMap entry().and_modify(closure).or_insert() chains): they add the body, unflagged, under (block, mode) and touch nothing else"],
         "design_ref": "DESIGN.md §5 C17-C20",
         "level_text": "Placement only. Registration: the probe of an `if` is due at its else-or-end, that of a block / loop / else before the `end` of that very construct (innermost open one), unflagged, nothing for other instructions. Emission: the code saved for a construct's `else`/`end` is emitted into the requested list of that instruction as (flag-guarded chain; unconditional bodies), nothing else changes. The driver that pairs the two (block stack, resolve at Else/End) is glue.",
@@ -288,7 +288,7 @@ PROPS = {
     "C20": {
         "title": "Semantic-after probes fire exactly once after the instruction",
         "units": ["V8_lower"],
-        "obligations": V8_BASE + ["V8_lower.create_bool_flag.*", "V8_lower.fn:create_bool_flag", "V8_lower.fn:add_local", "V8_lower.resolve_bodies.*", "V8_lower.fn:resolve_bodies", "V8_lower.plan_resolution_semantic_after.*", "V8_lower.fn:plan_resolution_semantic_after",
+        "obligations": V8_BASE + ["V8_lower.lower_semantic_after_branch.*", "V8_lower.fn:Module::lower_semantic_after_branch", "V8_lower.create_bool_flag.*", "V8_lower.fn:create_bool_flag", "V8_lower.fn:add_local", "V8_lower.resolve_bodies.*", "V8_lower.fn:resolve_bodies", "V8_lower.plan_resolution_semantic_after.*", "V8_lower.fn:plan_resolution_semantic_after",
                                    "V8_lower.kf.resolve_bodies.*", "V8_lower.lemma.emitted_chain_is_well_nested_up_to_two_flagged_bodies", "V8_lower.fn:lemma_chain_agrees_up_to_two"],
         "glue": LOWER_GLUE + ["ASSUMED: the contracts of save_{not_,}flagged_body_to_resolve (HashMap entry chains) and of the br_table target loop (a for_each closure, named brtable_save_targets by rule R11): they add the body under (block, mode), flagged with the given local or unflagged, and touch nothing else",
                               "TRUSTED model of wasmparser::BrTable: targets() yields br_targets(t), default() is br_default(t)"],
@@ -298,7 +298,7 @@ PROPS = {
     "C21": {
         "title": "Block alternate replaces exactly the selected construct",
         "units": ["V8_lower"],
-        "obligations": V8_BASE + ["V8_lower.lower_one_instruction.*", "V8_lower.fn:Module::lower_one_instruction", "V8_lower.fn:InstrumentationFlag::has_instr", "V8_lower.plan_resolution_block_alt.*", "V8_lower.fn:plan_resolution_block_alt", "V8_lower.fn:Body::clear_instr"],
+        "obligations": V8_BASE + ["V8_lower.lower_block_alt_opener.*", "V8_lower.fn:Module::lower_block_alt_opener", "V8_lower.lower_closing_end.*", "V8_lower.fn:Module::lower_closing_end_of_removed_construct", "V8_lower.lower_one_instruction.*", "V8_lower.fn:Module::lower_one_instruction", "V8_lower.fn:InstrumentationFlag::has_instr", "V8_lower.plan_resolution_block_alt.*", "V8_lower.fn:plan_resolution_block_alt", "V8_lower.fn:Body::clear_instr"],
         "glue": LOWER_GLUE, "design_ref": "DESIGN.md §5 C21",
         "level_text": "Placement only: on block / loop / if / else the replacement becomes the ALTERNATE of the opening instruction (an empty replacement becomes an empty alternate = removal), the construct's end is kept only for `else`; other instructions untouched. Removal of the instructions in between (delete_block tracking) is driver glue.",
     },
